@@ -19,7 +19,7 @@ def nontrivial(req):
 
 
 def run_p(seed, tier, replay=None):
-    n = 2500 if tier == "quick" else 60000
+    n = 2500 if tier == "quick" else 150000
     streams = [("p_filter", [seed, n])]
     if replay:
         rp = json.load(open(replay))
